@@ -58,9 +58,10 @@ MUTANTS = [
      "\t\t\tcase region.ServerError, region.NotServingRegionError:\n\t\t\t\tretryables = append(retryables, rpc)\n\t\t\tdefault:\n\t\t\t\tretryables = append(retryables, rpc)\n\t\t\t\tunretryableError = true",
      "non-retryable failures are sent again"),
     ("m12b", "C12", "region/multi.go", "\t\tas.pbs = append(as.pbs, a)\n", "\t\tas.pbs = append([]*pb.Action{a}, as.pbs...)\n", "multi lists a region's actions in reverse order"),
-    ("m01d", "C01", "rpc.go", "\tif stop := reg.StopKey(); len(stop) != 0 && bytes.Compare(probe, stop) >= 0 {", "\tif stop := reg.StopKey(); false && len(stop) != 0 && bytes.Compare(probe, stop) >= 0 {", "probe key not brought back into a tiny region"),
+    ("m01d", "C01", "rpc.go", "\tif stop := reg.StopKey(); len(stop) != 0 && len(stop) <= len(probe) &&", "\tif stop := reg.StopKey(); false && len(stop) != 0 && len(stop) <= len(probe) &&", "probe key not brought back into a tiny region"),
     ("m11d", "C11", "region/info.go", "\tif !bytes.Equal(cell.Row[:first], table) ||\n\t\t!bytes.Equal(cell.Row[first+1:last], regInfo.StartKey) {", "\tif false {", "region name no longer compared with the region info"),
     ("m11e", "C11", "region/client.go", "\tif size > math.MaxInt32 {", "\tif false && size > math.MaxInt32 {", "frame length of 2^31 and more accepted"),
+    ("m11f", "C11", "rpc.go", "\tif stop := reg.StopKey(); len(stop) != 0 && len(stop) <= len(probe) &&", "\tif stop := reg.StopKey(); len(stop) != 0 &&", "probe sliced to the length of any stop key"),
     ("m13a", "C13", "rpc.go", "\t\t\tcase <-ctx.Done():\n\t\t\t\treturn nil, ctx.Err()\n\t\t\tcase <-c.done:\n\t\t\t\treturn nil, ErrClientClosed\n\t\t\tcase <-ch:\n\t\t\t}\n\t\t}\n\n\t\tclient := reg.Client()",
      "\t\t\tcase <-c.done:\n\t\t\t\treturn nil, ErrClientClosed\n\t\t\tcase <-ch:\n\t\t\t}\n\t\t}\n\n\t\tclient := reg.Client()", "first availability wait ignores the context"),
     ("m13b", "C13", "rpc.go", "\tselect {\n\tcase <-time.After(backoff):\n\tcase <-ctx.Done():\n\t\treturn 0, ctx.Err()\n\tcase <-closed:", "\tselect {\n\tcase <-time.After(backoff):\n\tcase <-closed:", "back-off sleep ignores the context"),
